@@ -226,6 +226,39 @@ def call_event_of_result(p: Path, val) -> Optional[Event]:
     return None
 
 
+def pop_event_of(p: Path, value, names=('popfirst',)) -> Optional[Event]:
+    """The queue pop whose entry `value` is: the call result itself, or the entry re-packed component by component
+    ((e[0], e[1]) / a NamedTuple built from them)."""
+    ce = call_event_of_result(p, value)
+    if ce is not None and ce.d['name'] in names:
+        return ce
+    if isinstance(value, TupleVal) and len(value.items) == 2:
+        for ev in p.events:
+            if ev.kind == 'call' and ev.d['name'] in names and ev.d.get('result') is not None:
+                rk = key_of(ev.d['result'])
+                want = [('sub', rk, RF.const(i).key()) for i in (0, 1)]
+                got = [strip_versions(key_of(x)) for x in value.items]
+                if got == [strip_versions(w + (0,)) for w in want]:
+                    return ev
+    return None
+
+
+COPY_CALL_NAMES = {'deepcopy', 'copy', 'array', 'asarray', 'asfarray', 'ascontiguousarray'}
+
+
+def image_call_of(p: Path, v, gi: FuncInfo, depth: int = 0) -> Optional[Event]:
+    """The Evolvent.GetImage call whose result v is - directly or through value-preserving copies
+    (copy.deepcopy / copy.copy / np.copy / np.array / np.asarray)."""
+    ce = call_event_of_result(p, v) if v is not None else None
+    if ce is None or depth > 3:
+        return None
+    if any(isinstance(c, FuncInfo) and c.qualname == gi.qualname for c in ce.d['callees']):
+        return ce
+    if ce.d['name'] in COPY_CALL_NAMES and ce.d['args']:
+        return image_call_of(p, ce.d['args'][0], gi, depth + 1)
+    return None
+
+
 def getter_value(ex: Explorer, getter: FuncInfo, base: RF) -> RF:
     """Symbolic value returned by a one-path getter applied to base."""
     ps = normal_paths(ex.explore(getter, {getter.param_names[0]: base}))
